@@ -36,17 +36,18 @@ Step ==
   /\ (ev.ev = "cfg" \/ ev.t = now)
   /\ l' = l + 1
   /\ CASE ev.ev = "cfg" ->
-            Cfg([gw |-> ev.data.gw, gi |-> ev.data.gi, ri |-> ev.data.ri, sr |-> ev.data.sr,
+            Cfg([gw |-> ev.data.gw, gi |-> ev.data.gi, ri |-> ev.data.ri, integs |-> ev.data.integs,
                  inhibit |-> ev.data.inhibit, windows |-> ev.data.windows])
        [] ev.ev = "ingest" -> Ingest(ev.alerts[1].l, Ver(ev.alerts[1]))
        [] ev.ev = "sil.set" -> IF ev.data.code = 200 THEN SilSet(ev.data.ms, ev.data.start, ev.data.end) ELSE Other
        [] ev.ev = "sil.expire" -> IF ev.data.code = 200 THEN SilExpire(ev.data.idx) ELSE Other
        [] ev.ev = "flush.begin" -> FlushBegin(ev.ag, ev.gk, ev.alerts)
-       [] ev.ev = "attempt" -> Attempt(ev.ag, ev.gk, ev.integ, ev.alerts, ev.outcome, ev.deadline)
+       [] ev.ev = "attempt" -> Attempt(ev.ag, ev.gk, ev.integ, ev.alerts, ev.outcome, ev.deadline, ev.st)
        [] ev.ev = "nflog.log" -> NflogLog(ev.gk, ev.integ, ToSet(ev.firing), ToSet(ev.resolved))
        [] ev.ev = "flush.ok" -> FlushOk(ev.ag)
        [] ev.ev = "flush.done" -> FlushDone(ev.ag)
-       [] ev.ev \in {"reloading", "end"} -> Cancelling
+       [] ev.ev = "reloading" -> Reloading(ev.data.integs)
+       [] ev.ev = "end" -> Cancelling
        [] OTHER -> Other
 
 \* violated clauses are collected (register 2) and validation goes on, so one TLC
